@@ -2,6 +2,7 @@ package kapacitor
 
 import (
 	"fmt"
+	"strconv"
 	"time"
 
 	"github.com/influxdata/influxql"
@@ -35,6 +36,8 @@ func NewQuery(queryString string) (*Query, error) {
 	if !ok {
 		return nil, fmt.Errorf("query is not a select statement %q", q)
 	}
+
+	query.stmt.FillValue = plainFillValue(query.stmt.FillValue)
 
 	// Add in time condition nodes
 	query.startTL = &influxql.TimeLiteral{}
@@ -264,7 +267,21 @@ func (q *Query) AlignGroup() {
 
 func (q *Query) Fill(option influxql.FillOption, value interface{}) {
 	q.stmt.Fill = option
-	q.stmt.FillValue = value
+	q.stmt.FillValue = plainFillValue(value)
+}
+
+// fillFloat is a fill value that is written without an exponent, InfluxQL has no syntax for one.
+type fillFloat float64
+
+func (f fillFloat) String() string {
+	return strconv.FormatFloat(float64(f), 'f', -1, 64)
+}
+
+func plainFillValue(value interface{}) interface{} {
+	if f, ok := value.(float64); ok {
+		return fillFloat(f)
+	}
+	return value
 }
 
 func (q *Query) String() string {
